@@ -1,9 +1,127 @@
-/- line protocol stub for component `Router` (filled in by the component's owner) -/
+import Tulz.Model.Router
+import Tulz.Model.Regex
+import Tulz.Drv.Util
+/- line protocol for the SubjectRouter model (tag `rt`).  Keys and patterns are written `/=name/~regex/…`
+   (`/` alone is the root key); a concrete key has `=` levels only.
+
+     reset                      -> ok
+     init <S|C> <sig>           -> ok          (which router class / argument signature: harness only)
+     sub <h> <key> <f|p>        -> ok          (observer and handle id h; f = lambda, p = observer pointer)
+     unsub <h>                  -> ok | !inv | !dangling
+     inval <h>                  -> ok | !gone
+     notify <pattern> <arg>     -> n=<count> {<key>:<h>=<arg>}   (delivery order)
+     shrink <pattern>           -> ok
+     exists <pattern>           -> b=0|1
+     depth                      -> n=<depth>
+     snap <n1,n2,…> <d>         -> d=<depth> e=<exists bit for every concrete key over the names, length 1..d>
+     dump                       -> stored keys with their observers (driver only, statistics)
+-/
 namespace Tulz.Drv.Router
+open Tulz Tulz.Router
 
-abbrev State := Unit
-def init : State := ()
+structure Handle where
+  h : Nat
+  key : List String
+  dead : Bool          -- the node was erased by a shrink: the C++ handle dangles
 
-def step (s : State) (_args : List String) : State × String := (s, "bad-op")
+structure State where
+  tree : Node := emptyRouter
+  handles : List Handle := []
+
+def init : State := {}
+
+def rm (r : Regex.Re) (s : String) : Bool := r.matches s
+
+def parseLevel (tok : String) : Option (Level Regex.Re) :=
+  match tok.toList with
+  | '=' :: cs => some (.str (String.ofList cs))
+  | '~' :: cs => (Regex.parse (String.ofList cs)).map .re
+  | _ => none
+
+def parsePattern (s : String) : Option (List (Level Regex.Re)) :=
+  ((s.splitOn "/").filter (· ≠ "")).mapM parseLevel
+
+def concreteKey : List (Level Regex.Re) → Option (List String)
+  | [] => some []
+  | .str s :: ls => (concreteKey ls).map (s :: ·)
+  | .re _ :: _ => none
+
+def parseKey (s : String) : Option (List String) := parsePattern s >>= concreteKey
+
+def showKey (k : List String) : String := "/" ++ "/".intercalate k
+
+def keyOf (st : State) (h : Nat) : String :=
+  match st.handles.find? (·.h == h) with
+  | some x => showKey x.key
+  | none => "?"
+
+/-- all concrete keys over `names` of length 1..d, by length, then lexicographic in the order given -/
+def keysUpTo (names : List String) : Nat → List (List String) → List (List String)
+  | 0, _ => []
+  | d + 1, level =>
+    let next := level.flatMap (fun p => names.map (fun n => p ++ [n]))
+    next ++ keysUpTo names d next
+
+def showSubj : Option Subj → String
+  | none => "-"
+  | some s => "[" ++ ",".intercalate (s.map (fun o => toString o.id ++ (if o.valid then "" else "!"))) ++ "]"
+
+def step (st : State) (args : List String) : State × String :=
+  match args with
+  | ["reset"] => ({}, "ok")
+  | ["init", _, _] => (st, "ok")
+  | ["sub", h, key, _] =>
+    match h.toNat?, parseKey key with
+    | some h, some k => ({ tree := rSubscribe h k st.tree, handles := ⟨h, k, false⟩ :: st.handles }, "ok")
+    | _, _ => (st, "bad-op")
+  | ["unsub", h] =>
+    match h.toNat? >>= fun h => st.handles.find? (·.h == h) with
+    | none => (st, "bad-op")
+    | some x =>
+      if x.dead then (st, "!dangling") else
+      match applyOp rm st.tree (.unsubscribe x.key x.h) with
+      | .ok t => ({ st with tree := t }, "ok")
+      | .error .invalidArg => (st, "!inv")
+      | .error .dangling => (st, "!dangling")
+  | ["inval", h] =>
+    match h.toNat? >>= fun h => st.handles.find? (·.h == h) with
+    | none => (st, "bad-op")
+    | some x =>
+      if x.dead then (st, "!gone") else
+      match applyOp rm st.tree (.invalidate x.key x.h) with
+      | .ok t => ({ st with tree := t }, "ok")
+      | .error _ => (st, "!gone")
+  | ["notify", pat, arg] =>
+    match parsePattern pat with
+    | none => (st, "bad-op")
+    | some p =>
+      let r := rNotify rm arg p st.tree
+      let entries := r.log.map (fun e => " " ++ keyOf st e.1 ++ ":" ++ toString e.1 ++ "=" ++ e.2)
+      ({ st with tree := r.node }, "n=" ++ toString r.count ++ String.join entries)
+  | ["shrink", pat] =>
+    match parsePattern pat with
+    | none => (st, "bad-op")
+    | some p =>
+      let t := rShrink rm p st.tree
+      let before := rKeys st.tree
+      let after := rKeys t
+      let gone := before.filter (fun k => !after.contains k)
+      ({ tree := t, handles := st.handles.map (fun x => if gone.contains x.key then { x with dead := true } else x) }, "ok")
+  | ["exists", pat] =>
+    match parsePattern pat with
+    | none => (st, "bad-op")
+    | some p => (st, if rExists rm p st.tree then "b=1" else "b=0")
+  | ["depth"] => (st, "n=" ++ toString (rDepth st.tree))
+  | ["snap", names, d] =>
+    match d.toNat? with
+    | none => (st, "bad-op")
+    | some d =>
+      let ns := (names.splitOn ",").filter (· ≠ "")
+      let keys := keysUpTo ns d [[]]
+      let bits := keys.map (fun k => if rExists rm (k.map Level.str) st.tree then "1" else "0")
+      (st, "d=" ++ toString (rDepth st.tree) ++ " e=" ++ String.join bits)
+  | ["dump"] =>
+    (st, " ".intercalate ((rFlat st.tree).map (fun e => showKey e.1 ++ showSubj e.2)))
+  | _ => (st, "bad-op")
 
 end Tulz.Drv.Router
